@@ -31,7 +31,7 @@ def run(ctx):
                 continue
             for nd in H.walk(fn['hir']):
                 if nd.get('k') == 'Call' and (H.callee_path(nd) or '').startswith('mio_extras::channel::'):
-                    mk.append((p, S.norm_path(H.callee_path(nd)), H.term(nd['args'][0]) if nd['args'] else None))
+                    mk.append((ctx.owner(p), S.norm_path(H.callee_path(nd)), S.show(ctx.evaluator(0).eval(nd['args'][0], {}, [], None, [])) if nd['args'] else None))  # bounds read through new constants
         want = [('io_loop::Channel0Slot::new', 'mio_extras::channel::sync_channel', '1'), ('io_loop::Channel0Slot::new', 'mio_extras::channel::sync_channel', '1'),
                 ('io_loop::ChannelSlot::new', 'mio_extras::channel::sync_channel', 'mio_channel_bound')]
         r.eq('creation-sites', mk, want, None, why='an unbounded channel() would let publishers outrun the socket without limit')
